@@ -13,7 +13,7 @@
                 case <n> ctasksx …                        (outside the model: every line answered `-`)
   ops:          ct call | ct subscribe | ct batch <n> | ct notify | ct deliver <hex>
                 | ct fault send_err <k> | ct fault recv_err <k> | ct fault peer_close | ct fault garbage <hex>
-                | ct gate send|close|recv open|shut | ct probe | ct end
+                | ct gate send|close|recv|all open|shut | ct probe | ct end
                 | ct deliverbytes <hex> | ct deepdeliver <depth>     (outside the text model: `-` from there on)
                 rt <scenario> <ms>                         (real-time test of the harness: answered `rt`)
   output:       <events> | conn=<0|1> disc=<pending|E:…> tc=<0|1>
@@ -261,6 +261,7 @@ def ctVerb (cs : CtSt) (ws : List String) : Option (CtSt × String) :=
         if which == "send" then finishOp { cs with sendGate := v } cs.b.fronts
         else if which == "close" then finishOp { cs with closeGate := v } cs.b.fronts
         else if which == "recv" then finishOp { cs with recvGate := v } cs.b.fronts
+        else if which == "all" then finishOp { cs with sendGate := v, recvGate := v, closeGate := v } cs.b.fronts
         else (cs, "bad-op")
       | "probe", [] => finishOp cs cs.b.fronts
       | "end", [] =>
